@@ -273,6 +273,10 @@ func (e *env) c04Build(t *rapid.T, rn string) c04Req {
 			return dig("sha256", []byte("never pushed "+label)), 7
 		}
 		d := rapid.SampledFrom(pool).Draw(t, label)
+		if _, ok := mr.blobs[d]; !ok && mr.mans[d] != nil {
+			q.desc = append(q.desc, label+":blob-deleted")
+			return d, len(mr.mans[d].raw)
+		}
 		return d, len(mr.blobs[d])
 	}
 	q.kind = rapid.SampledFrom([]string{"image", "image", "index", "artifact"}).Draw(t, "kind")
@@ -285,6 +289,12 @@ func (e *env) c04Build(t *rapid.T, rn string) c04Req {
 		}
 		kids := []any{}
 		all := sortedKeys(mr.blobs)
+		// a manifest the index still lists although its blob was deleted through the blob API is a candidate as well
+		for _, d := range sortedKeys(mr.mans) {
+			if _, ok := mr.blobs[d]; !ok {
+				all = append(all, d)
+			}
+		}
 		for i, n := 0, rapid.IntRange(0, 2).Draw(t, "nChildren"); i < n; i++ {
 			d, sz := pick("child", all)
 			cmt := mtImage
@@ -424,17 +434,26 @@ func c04Property(t *rapid.T, st *Stats) {
 		"deleteBlob": func(t *rapid.T) {
 			rn := rapid.SampledFrom(c04Repos).Draw(t, "repo")
 			blobs := e.repo(rn).plainBlobs()
+			// the blob API also removes the blob of a manifest: the index entry (and the tags) stay, the content is gone,
+			// and a later index or image that references the digest references something that no longer exists
+			ofManifest := false
+			if mb := e.repo(rn).manifestBlobs(); len(mb) > 0 && rapid.IntRange(0, 2).Draw(t, "blobOfManifest") == 0 {
+				blobs, ofManifest = mb, true
+			}
 			if len(blobs) == 0 {
 				t.Skip("no blobs")
 			}
 			d := rapid.SampledFrom(blobs).Draw(t, "digest")
 			r := e.do("DELETE", "/v2/"+rn+"/blobs/"+d, nil, nil)
-			e.logf("deleteBlob %s %s -> %d", rn, short(d), r.code)
+			e.logf("deleteBlob %s %s (manifest: %v) -> %d", rn, short(d), ofManifest, r.code)
 			if r.code != 202 {
 				e.abandon("blob delete refused")
 			}
 			delete(e.repo(rn).blobs, d)
 			e.class("blob-deleted")
+			if ofManifest {
+				e.class("manifest-blob-deleted")
+			}
 		},
 		"putManifest": func(t *rapid.T) {
 			rn := rapid.SampledFrom(c04Repos).Draw(t, "repo")
